@@ -36,6 +36,10 @@ E_LOGITS = np.log(np.asarray([[0.9, 0.1], [0.35, 0.65]]))  # emission rows (x ->
 Q_INIT = np.log(np.asarray([[0.6, 0.4], [0.25, 0.75]]))  # custom proposal q(x | y)
 Q_EXT = np.log(np.asarray([[[0.5, 0.5], [0.3, 0.7]], [[0.8, 0.2], [0.1, 0.9]]]))  # q(x | y, prev)
 PREV0 = 0
+# "_aux" pipelines: a second latent s ~ categorical(S_LOGITS[x]) per step that the custom proposals do NOT
+# propose (partial proposals: the model's own prior fills s in).  s influences nothing else, so p(y) and
+# the reference particle weights are unchanged - only the trace scores gain the term log p(s | x).
+S_LOGITS = np.log(np.asarray([[0.55, 0.45], [0.15, 0.85]]))
 # a variant with a hard constraint: state 0 never emits symbol 1 (whole collections can die)
 with np.errstate(divide="ignore"):
     E_SPARSE = np.log(np.asarray([[1.0, 0.0], [0.35, 0.65]]))
@@ -48,11 +52,19 @@ def _use_tables(sparse):
     E_LOGITS = E_SPARSE if sparse else _E_DENSE
 
 
-def _model(nested=False):
+def _model(nested=False, aux=False):
     import jax.numpy as jnp
     from genjax import gen, categorical
 
     TL, EL, QI, QE = (jnp.asarray(a, jnp.float32) for a in (T_LOGITS, E_LOGITS, Q_INIT, Q_EXT))
+    SL = jnp.asarray(S_LOGITS, jnp.float32)
+
+    @gen
+    def step_aux(prev):
+        x = categorical(TL[prev]) @ "x"
+        s = categorical(SL[x]) @ "s"
+        y = categorical(EL[x]) @ "y"
+        return x
 
     @gen
     def step(prev):
@@ -104,6 +116,8 @@ def _model(nested=False):
 
     if nested:
         return step_n, init_prop_n, ext_prop_n
+    if aux:
+        return step_aux, init_prop, ext_prop
     return step, init_prop, ext_prop
 
 
@@ -124,7 +138,7 @@ def p_ref(obs):
     return tot, tot1
 
 
-PIPELINES = ("init_resample_cat_extend_sparse", "init_resample_sys_extend_sparse", "init_extend_sparse", "init", "init_q", "init_extend", "init_extend_q", "init_extend_q_nested", "init_extend_nested", "init_resample_cat_extend", "init_resample_sys_extend", "init_rejuv_extend_resample", "rsmc", "rsmc_mh", "rsmc_q")
+PIPELINES = ("init_extend_q_aux", "rsmc_q_aux", "init_resample_cat_extend_sparse", "init_resample_sys_extend_sparse", "init_extend_sparse", "init", "init_q", "init_extend", "init_extend_q", "init_extend_q_nested", "init_extend_nested", "init_resample_cat_extend", "init_resample_sys_extend", "init_rejuv_extend_resample", "rsmc", "rsmc_mh", "rsmc_q")
 
 
 def _pipeline(name, N, T):
@@ -137,8 +151,10 @@ def _pipeline(name, N, T):
     sparse = name.endswith("_sparse")
     name = name[: -len("_sparse")] if sparse else name
     _use_tables(sparse)
+    aux = name.endswith("_aux")
+    name = name[: -len("_aux")] if aux else name
     nested = name.endswith("_nested")
-    step, init_prop, ext_prop = _model(nested)
+    step, init_prop, ext_prop = _model(nested, aux)
     prev0 = jnp.asarray(PREV0, jnp.int32)
     kern = lambda tr: mh(tr, sel("x"))
     name = name[: -len("_nested")] if nested else name
@@ -185,6 +201,7 @@ STAGES = {
     "init_q": ["init_q"],
     "init_extend": ["init", "extend"],
     "init_extend_q": ["init_q", "extend_q"],
+    "init_extend_q_aux": ["init_q", "extend_q"],
     "init_extend_q_nested": ["init_q", "extend_q"],
     "init_extend_nested": ["init", "extend"],
     "init_resample_cat_extend": ["init", "resample", "extend"],
@@ -226,6 +243,7 @@ def _check_stage(res, kind, P, Pprev, obs_t, t, N, det):
             if not np.array_equal(prev, want_prev):
                 res.violate(PROP, f"parent-state:{sig}", args_prev=prev, previous_retval=want_prev, **det)
         inc = T_LOGITS[prev, x] + E_LOGITS[x, y]
+        aux_lp = S_LOGITS[x, ch["s"].astype(int)] if "s" in ch else 0.0
         if kind == "init":
             inc = inc - T_LOGITS[prev, x]
         elif kind == "extend":
@@ -240,8 +258,8 @@ def _check_stage(res, kind, P, Pprev, obs_t, t, N, det):
         sc = np.asarray(P.traces._score if hasattr(P.traces, "_score") else P.traces.get_score(), np.float64)
         if np.shape(sc) != (N,):
             res.violate(PROP, f"particle-score-shape:{sig}", shape=list(np.shape(sc)), **det)
-        elif not H.close(sc, -(T_LOGITS[prev, x] + E_LOGITS[x, y]), rtol=1e-4, atol=1e-4):
-            res.violate(PROP, f"particle-score:{sig}", score=sc, reference=-(T_LOGITS[prev, x] + E_LOGITS[x, y]), **det)
+        elif not H.close(sc, -(T_LOGITS[prev, x] + E_LOGITS[x, y] + aux_lp), rtol=1e-4, atol=1e-4):
+            res.violate(PROP, f"particle-score:{sig}", score=sc, reference=-(T_LOGITS[prev, x] + E_LOGITS[x, y] + aux_lp), **det)
         if Pprev is not None and not H.close(np.asarray(P.log_marginal_estimate), np.asarray(Pprev.log_marginal_estimate), rtol=1e-6, atol=1e-6):
             res.violate(PROP, f"running-estimate-changed:{sig}", **det)
     elif kind == "resample":
@@ -269,7 +287,8 @@ def _check_stage(res, kind, P, Pprev, obs_t, t, N, det):
         if not np.all(y == obs_t):
             res.violate(PROP, f"observation-moved-by-rejuvenation:{sig}", y=y, **det)
         sc = np.asarray(P.traces._score, np.float64)
-        if not H.close(sc, -(T_LOGITS[prev, x] + E_LOGITS[x, y]), rtol=1e-4, atol=1e-4):
+        aux_lp = S_LOGITS[x, ch["s"].astype(int)] if "s" in ch else 0.0
+        if not H.close(sc, -(T_LOGITS[prev, x] + E_LOGITS[x, y] + aux_lp), rtol=1e-4, atol=1e-4):
             res.violate(PROP, f"rejuvenated-trace-incoherent:{sig}", score=sc, x=x, **det)
         if not np.array_equal(np.asarray(P.traces.get_retval()).astype(int), x):
             res.violate(PROP, f"rejuvenated-retval:{sig}", retval=np.asarray(P.traces.get_retval()), x=x, **det)
